@@ -25,7 +25,7 @@ const char *__asan_default_options(void) {
     return "exitcode=99:allocator_may_return_null=1:detect_leaks=0:abort_on_error=0:handle_abort=1:max_allocation_size_mb=512";
 }
 const char *__ubsan_default_options(void) { return "print_stacktrace=1:halt_on_error=0"; }
-const char *__tsan_default_options(void) { return "exitcode=98:halt_on_error=0:report_signal_unsafe=0"; }
+const char *__tsan_default_options(void) { return "exitcode=98:halt_on_error=0:report_signal_unsafe=0:history_size=7";   /* with the default history a race whose first access lies many events back is dropped silently (its stack cannot be restored) */ }
 
 int main(int argc, char **argv) {
     if(argc < 2) die("usage: drv <cmd> [job] [out]");
